@@ -206,6 +206,44 @@ impl ToClvm<TreeHasher> for DynArgs {
     }
 }
 
+/// a value living in an Allocator, encoded through ANY ClvmEncoder by walking it: with TreeHasher this is
+/// the hash-only path (encode_atom / encode_pair) that `ToTreeHash` uses for typed values
+struct NodeVal<'a>(&'a Allocator, NodePtr);
+impl ToClvm<TreeHasher> for NodeVal<'_> {
+    fn to_clvm(&self, e: &mut TreeHasher) -> Result<TreeHash, ToClvmError> {
+        match self.0.sexp(self.1) {
+            SExp::Atom => e.encode_atom(self.0.atom(self.1)),
+            SExp::Pair(l, r) => {
+                let hl = NodeVal(self.0, l).to_clvm(e)?;
+                let hr = NodeVal(self.0, r).to_clvm(e)?;
+                e.encode_pair(hl, hr)
+            }
+        }
+    }
+}
+
+/// curried arguments given as VALUES, through TreeHasher::encode_curried_arg
+struct DynVals<'a>(Vec<NodeVal<'a>>);
+impl ToClvm<TreeHasher> for DynVals<'_> {
+    fn to_clvm(&self, e: &mut TreeHasher) -> Result<TreeHash, ToClvmError> {
+        let mut acc = e.encode_atom(clvmr::Atom::Borrowed(&[1]))?;
+        for x in self.0.iter().rev() {
+            let first = x.to_clvm(e)?;
+            acc = e.encode_curried_arg(first, acc)?;
+        }
+        Ok(acc)
+    }
+}
+
+/// short printable form of a value for FAIL lines
+fn show(a: &Allocator, n: NodePtr) -> String {
+    match node_to_bytes(a, n) {
+        Ok(b) if b.len() <= 48 => hexo(&b),
+        Ok(b) => format!("{}..({}bytes)", hexo(&b[..48]), b.len()),
+        Err(_) => "?".into(),
+    }
+}
+
 /// independent hash of (a (q . P) (c (q . A1) ... 1)) from the hashes of P and the Ai
 fn ref_curried(p: &[u8; 32], args: &[[u8; 32]]) -> [u8; 32] {
     let nil = h_atom(&[]);
@@ -528,6 +566,17 @@ fn run(name: &str, args: &[String]) -> Option<String> {
                     if ref_hash(&w.a, n) != want {
                         return Some(format!("FAIL harness-self-check node={k}"));
                     }
+                    // the same value through the hash-only encoder (hash_encoder.rs: ToTreeHash / TreeHasher)
+                    let th = NodeVal(&w.a, n).tree_hash().to_bytes();
+                    if th != want {
+                        return Some(format!(
+                            "FAIL TreeHasher(value)!=tree_hash node={k} value={} TreeHasher={} tree_hash={}",
+                            show(&w.a, n),
+                            hexo(&th),
+                            hexo(&want)
+                        ));
+                    }
+                    checks += 1;
                     // (node_to_bytes refuses outputs above 2 000 000 bytes)
                     if let Ok(ser) = node_to_bytes(&w.a, n) {
                         match tree_hash_from_bytes(&ser) {
@@ -620,6 +669,22 @@ fn run(name: &str, args: &[String]) -> Option<String> {
                 }
                 if ref_hash(a, curried2) != want {
                     return Some("FAIL harness-self-check(curried)".into());
+                }
+                // program and arguments as VALUES through the hash-only encoder (encode_curried_arg)
+                let vals = DynVals(arg_nodes.iter().map(|&n| NodeVal(a, n)).collect());
+                let th = (CurriedProgram { program: NodeVal(a, program), args: vals }).tree_hash().to_bytes();
+                if th != want {
+                    let shown: Vec<String> = arg_nodes.iter().map(|&n| show(a, n)).collect();
+                    return Some(format!(
+                        "FAIL TreeHasher(CurriedProgram-of-values)!=tree_hash program={} args={} TreeHasher={} tree_hash={}",
+                        show(a, program),
+                        shown.join(","),
+                        hexo(&th),
+                        hexo(&want)
+                    ));
+                }
+                if NodeVal(a, curried).tree_hash().to_bytes() != want {
+                    return Some(format!("FAIL TreeHasher(curried-program-value)!=tree_hash value={}", show(a, curried)));
                 }
             }
             Some("OK".into())
